@@ -162,7 +162,9 @@ def c10_3(ctx, r):
                     from ..lib import norm
 
                     form, pol = norm(ctx, fn, c, n, pol=(k == "T"))
-                    if form == want and pol is False:
+                    from ..lib import swap_eq
+
+                    if form in (want, swap_eq(want)) and pol is False:
                         # everything reachable on this edge (normal kinds) must end in raise
                         seen, stack = set(), [d]
                         ends_normally = False
